@@ -31,7 +31,52 @@ def plan(tier, seed):
         sp += [{'kind': 'hist', 'mode': 'exhaustive', 'maxlen': 7, 'first': f} for f in range(len(OPS))]
         sp += [{'kind': 'refuse', 'n': 2500, 'slice': k} for k in range(16)]
     from hv import realwork
+    sp += [{'kind': 'cli-goes-away', 'year': y, 'n': 2 if tier == 'quick' else 12} for y in (2021, 2022, 2023)]
     return sp + realwork.shards('C06', tier)
+
+
+def run_cli_goes_away(spec, tier, seed, res):
+    """Termination at the command line when the user stops answering: input ends
+    (EOF) or Ctrl-C at the k-th question, for k spread over the session.  The
+    bound is logical: the prompt loop may call input() at most 60 times for one
+    question."""
+    import os
+    import tempfile
+    from hv import scen
+    from hv.monitors import c20
+    year = spec['year']
+    rng = rng_for('C06cli', seed, spec)
+    lookup = c20.InputLookup(year)
+    for k in range(spec['n']):
+        fam = rng.choice(['F0', 'F1', 'F2', 'F8', 'F3'])
+        p = scen.Persona(year, fam, f'c06cli:{seed}:{k}')
+        tmp = tempfile.mkdtemp(prefix='hv_c06_')
+        try:
+            def a(name, p=p):
+                return p.answer(lookup.get(name))
+            a.lookup = lookup
+            r0, given0 = c20.session(year, p.forms(), os.path.join(tmp, 'full.ini'), a)
+            n = r0.n_prompts
+            full = dict(given0)
+            for kind in ('eof', 'sigint'):
+                for kk in sorted({1, 2, 3, max(1, n // 2), n} | {rng.randint(1, max(1, n)) for _ in range(6)}):
+                    q = scen.Persona(year, fam, p.key, overrides=full)
+
+                    def a2(name, q=q):
+                        return q.answer(lookup.get(name))
+                    a2.lookup = lookup
+                    path = os.path.join(tmp, 'p.ini')
+                    c20.write_ini(path, {})
+                    r, given = c20.session(year, q.forms(), path, a2, fault=(kind, kk))
+                    res.evaluations += 1
+                    res.count('cli_user_goes_away_sessions')
+                    res.distinct.add(f'cli-away|{year}|{kind}|{kk}')
+                    if isinstance(r.exc, c20.RunawayPrompt):
+                        res.violation(f'C06|cli|prompt-loop-does-not-end|{kind}', f'{year} {fam}: user gone ({kind}) at question {kk}: {r.exc}',
+                                      {'engine': 'cli', 'persona': q.describe(), 'fault': [kind, kk], 'shard': spec})
+        finally:
+            import shutil
+            shutil.rmtree(tmp, ignore_errors=True)
 
 
 # ------------------------------------------------------------------ tracker histories
@@ -241,6 +286,9 @@ def run_shard(spec, tier, seed):
     if spec['kind'] == 'real':
         from hv import realwork
         return realwork.run_shard('C06', spec, tier, seed)
+    if spec['kind'] == 'cli-goes-away':
+        run_cli_goes_away(spec, tier, seed, res)
+        return res
     if spec['kind'] == 'hist':
         run_hist_shard(spec, seed, res)
         return res
@@ -259,6 +307,8 @@ def finalize(res, tier):
         res.inconclusive.append('fewer than 1000 non-trivial tracker histories')
     if c.get('solves_with_refusal', 0) < 100:
         res.inconclusive.append('fewer than 100 solves with a refusing prompt')
+    if c.get('cli_user_goes_away_sessions', 0) < 20:
+        res.inconclusive.append('fewer than 20 command-line sessions with a user who goes away')
     if c.get('ev_DEP', 0) < 1000:
         res.inconclusive.append('fewer than 1000 dependency-tracker events in solves')
     return {'histories_exhaustive_maxlen': res.extra.get('histories_exhaustive_maxlen')}
